@@ -104,3 +104,37 @@ Proof.
   - rewrite !distance_norm by congruence. apply combined_triangle; cbn [length]; try congruence. cbn [vaddl]. constructor; [|exact T].
     split; [exact (proj1 (proj2 (proj2 (dist_metric_l a c c ltac:(congruence) eq_refl))))|exact S4].
 Qed.
+
+(* ---- nearest-centroid assignment ---- *)
+From Coq Require Import ZArith Lia.
+Lemma argmin_from_spec ds : forall best bd k, (0 <= best < k)%Z ->
+  let r := argmin_from best bd k ds in
+  (0 <= r < k + Z.of_nat (length ds))%Z /\
+  ((r = best /\ forall j, (j < length ds)%nat -> bd <= nth j ds 0) \/
+   (exists j, (j < length ds)%nat /\ r = (k + Z.of_nat j)%Z /\ nth j ds 0 < bd /\ forall i, (i < length ds)%nat -> nth j ds 0 <= nth i ds 0)).
+Proof.
+  induction ds as [|d r IH]; intros best bd k Hb; cbn [argmin_from length].
+  - split; [lia|]. left. split; [reflexivity|intros j Hj; inversion Hj].
+  - destruct (ltb d bd) eqn:E; bools.
+    + destruct (IH k d (k + 1)%Z ltac:(lia)) as [R1 R2]. cbv zeta in *. split; [lia|]. right. destruct R2 as [[E1 A]|(j & Hj & E1 & Lt & A)].
+      * exists 0%nat. split; [lia|]. split; [rewrite E1; lia|]. split; [exact E|]. intros [|i] Hi; cbn [nth]; [lra|apply A; lia].
+      * exists (S j). split; [lia|]. split; [rewrite E1; lia|]. cbn [nth]. split; [lra|]. intros [|i] Hi; cbn [nth]; [lra|apply A; lia].
+    + destruct (IH best bd (k + 1)%Z ltac:(lia)) as [R1 R2]. cbv zeta in *. split; [lia|]. destruct R2 as [[E1 A]|(j & Hj & E1 & Lt & A)].
+      * left. split; [exact E1|]. intros [|i] Hi; cbn [nth]; [lra|apply A; lia].
+      * right. exists (S j). split; [lia|]. split; [rewrite E1; lia|]. cbn [nth]. split; [exact Lt|]. intros [|i] Hi; cbn [nth]; [lra|apply A; lia].
+Qed.
+(* every observation is labelled with an existing centroid that is at least as close as any other *)
+Lemma nearest_l cents x : cents <> [] ->
+  (0 <= nearest cents x < Z.of_nat (length cents))%Z /\
+  forall k, (k < length cents)%nat -> d2 x (nth (Z.to_nat (nearest cents x)) cents []) <= d2 x (nth k cents []).
+Proof.
+  intros NE. unfold nearest. destruct cents as [|c0 cs]; [contradiction|]. cbn [map]. set (ds := map (d2 x) cs).
+  assert (L: length ds = length cs) by (unfold ds; apply map_length).
+  assert (N: forall j, (j < length cs)%nat -> nth j ds 0 = d2 x (nth j cs [])).
+  { intros j Hj. unfold ds. rewrite (nth_indep _ 0 (d2 x [])) by (rewrite map_length; exact Hj). apply (map_nth (d2 x) cs [] j). }
+  destruct (argmin_from_spec ds 0%Z (d2 x c0) 1%Z ltac:(lia)) as [R1 R2]. cbv zeta in *. cbn [length]. split; [lia|].
+  destruct R2 as [[E1 A]|(j & Hj & E1 & Lt & A)]; rewrite E1.
+  - cbn [Z.to_nat nth]. intros [|k] Hk; cbn [nth]; [lra|]. rewrite <- N by (cbn [length] in Hk; lia). apply A. cbn [length] in Hk. lia.
+  - replace (Z.to_nat (1 + Z.of_nat j)) with (S j) by lia. cbn [nth]. rewrite <- N by lia. intros [|k] Hk; cbn [nth]; [lra|].
+    rewrite <- N by (cbn [length] in Hk; lia). apply A. cbn [length] in Hk. lia.
+Qed.
